@@ -1,12 +1,51 @@
 import CM.Lib.Wire
+import CM.Drv.C01
+import CM.Drv.C02
+import CM.Drv.C03
+import CM.Drv.C04
+import CM.Drv.C05
+import CM.Drv.C06
+import CM.Drv.C07
+import CM.Drv.C08
+import CM.Drv.C09
+import CM.Drv.C10
 import CM.Drv.C11
-/-! `cmdriver`: one request per line on stdin, one answer per line on stdout. -/
+import CM.Drv.C12
+import CM.Drv.C13
+import CM.Drv.C14
+import CM.Drv.C15
+import CM.Drv.C16
+import CM.Drv.C17
+import CM.Drv.C18
+import CM.Drv.C19
+import CM.Drv.C20
+/-! `cmdriver`: one request per line on stdin, one answer per line on stdout.
+Request: `<Cxx> <op> <arg>* [=> <impl output token>*]`; answer: `<model> | <spec> | <tag>`. -/
 open CM.Wire
 
 def dispatch (line : String) : String :=
   let (args, impl) := splitImpl (words line)
   match args with
+  | "C01" :: rest => CM.Drv.C01.handle rest impl
+  | "C02" :: rest => CM.Drv.C02.handle rest impl
+  | "C03" :: rest => CM.Drv.C03.handle rest impl
+  | "C04" :: rest => CM.Drv.C04.handle rest impl
+  | "C05" :: rest => CM.Drv.C05.handle rest impl
+  | "C06" :: rest => CM.Drv.C06.handle rest impl
+  | "C07" :: rest => CM.Drv.C07.handle rest impl
+  | "C08" :: rest => CM.Drv.C08.handle rest impl
+  | "C09" :: rest => CM.Drv.C09.handle rest impl
+  | "C10" :: rest => CM.Drv.C10.handle rest impl
   | "C11" :: rest => CM.Drv.C11.handle rest impl
+  | "C12" :: rest => CM.Drv.C12.handle rest impl
+  | "C13" :: rest => CM.Drv.C13.handle rest impl
+  | "C14" :: rest => CM.Drv.C14.handle rest impl
+  | "C15" :: rest => CM.Drv.C15.handle rest impl
+  | "C16" :: rest => CM.Drv.C16.handle rest impl
+  | "C17" :: rest => CM.Drv.C17.handle rest impl
+  | "C18" :: rest => CM.Drv.C18.handle rest impl
+  | "C19" :: rest => CM.Drv.C19.handle rest impl
+  | "C20" :: rest => CM.Drv.C20.handle rest impl
   | _ => bad
 
 partial def loop (h : IO.FS.Stream) (out : IO.FS.Stream) : IO Unit := do
